@@ -34,6 +34,9 @@ CHECKS = {
     "C06": ("Hypothesis-generated planted (template j, rotation k, shift d) sub-volumes built analytically; oracle = planted labels/rotation/shift, score optimality against separately evaluated candidates, permutation metamorphic relation; loader/group routes on planted tomograms; (max, step) grids against the documented construction",
             "Generated-input exploration with planted ground truth, a differential optimality oracle (full search == max over candidates evaluated alone), a metamorphic permutation relation, and a documented-grid oracle for (max, step) ranges.",
             "rotation sets contain the identity and are >= 25 deg apart; FSC not used (degenerate on band-limited blobs); PCC with unequal-energy templates is a recorded known finding; optimality oracle only for T*K <= 9", "4/C06"),
+    "C05": ("Hypothesis-generated degenerate / unrelated / boundary sub-volumes x max_shifts classes (0, <0.75, off-grid, integer, > box, anisotropic) x models x rotation sets; loader-level routes with scalar/tuple/list/numpy-scalar limits; enumerated max_shifts spellings",
+            "Generated-input exploration with a validity oracle: no exception, finite shift and score, |shift_i| <= max_shifts_i (model level) and displacement along the input molecule's own axes within max_shifts (loader level, all five alignment routes).",
+            "FSC limited to max_shifts <= 3 px / boxes <= 10; rotation sets contain the identity; 0-d numpy arrays are not treated as a documented max_shifts spelling", "4/C05"),
 }
 
 NOT_YET = {}
